@@ -48,6 +48,40 @@ def _model_check(ck, wd, tier):
             ck.add_tlc("WalkDescents NW=%d NA=%d FirstRed=%d Spurious=%s" % (nw, na, fr, sp), res)
 
 
+def _tsan_fits(ck, wd, tier, seed):
+    from checks import fit_checks
+    sub = vlib.Check("C12", tier, seed)          # scratch collector for the generator's bookkeeping
+    af, pf, n, total = fit_checks._gen(sub, tier if tier == "quick" else "quick", wd, seed, 500 if tier == "quick" else 3000)
+    exe = vlib.build_driver("fit_driver", "tsan")
+    outs = {}
+    counts = [1, 2, 5, 16] if tier == "quick" else [1, 2, 3, 5, 8, 16, 32]
+    for nt in counts:
+        log = os.path.join(wd, "thr%d.ndjson" % nt)
+        rc, so, err, _ = vlib.run_driver(exe, ["threads", af, pf, str(seed), log], timeout=120 if tier == "quick" else 900,
+                                         env={"OMP_NUM_THREADS": str(nt), "TSAN_OPTIONS": "halt_on_error=0:exitcode=66:second_deadlock_stack=1"})
+        races = err.count("WARNING: ThreadSanitizer")
+        if races or rc == 66:
+            first = err[err.find("WARNING: ThreadSanitizer"):][:2500]
+            kind = "data-race" if "data race" in first else ("lock-order" if "lock-order" in first else "tsan-report")
+            ck.violation({"class": "tsan-" + kind, "workers": nt}, {"what": "ThreadSanitizer report during monotonic fits with %d worker threads" % nt, "report": first})
+            if rc not in (0, 66):
+                break      # it also hung or died: do not repeat that once per worker count
+        elif rc != 0:
+            cls = "hang" if rc in (124, 137) else "crash"
+            ck.violation({"class": cls, "workers": nt, "stage": "tsan-fits"}, {"what": "fit driver under TSan ended abnormally (rc=%s) with %d workers" % (rc, nt), "stderr": err[-2000:]})
+            break          # one hang is enough; do not wait for the time-out once per worker count
+        outs[nt] = open(log).read() if os.path.exists(log) else ""
+    ref = outs.get(1)
+    nfits = ref.count("\n") if ref else 0
+    for nt, o in outs.items():
+        if ref is not None and o != ref:
+            a, b = ref.splitlines(), o.splitlines()
+            k = next((i for i in range(min(len(a), len(b))) if a[i] != b[i]), min(len(a), len(b)))
+            ck.violation({"class": "result-depends-on-worker-count", "workers": nt},
+                         {"what": "monotonic fit coefficients differ between 1 and %d worker threads" % nt, "first_difference": [a[k][:300] if k < len(a) else None, b[k][:300] if k < len(b) else None]})
+    return nfits * len(outs)
+
+
 def _dump_graph(wd, nw, na, fr):
     cfg = _cfg(wd, "dump.cfg", nw, na, fr, False, ["TypeOK"])
     dot = os.path.join(wd, "graph_%d_%d_%d" % (nw, na, fr))
@@ -152,7 +186,10 @@ def run(pid, tier, seed, replay=None):
     ck = vlib.Check(pid, tier, seed)
     wd = vlib.workdir("c12")
     try:
+        import time as _t
+        t0 = _t.time(); stage = ck.cov.setdefault("stage_wall_s", {})
         _model_check(ck, wd, tier)
+        stage["model_check"] = round(_t.time() - t0, 1); t0 = _t.time()
         exe = vlib.build_driver("c12_driver", "asan", tag="-shim", c_include=SHIM)
         # ---- (R) transition cover of the dumped state graph, replayed on the real code
         plan = []
@@ -177,6 +214,7 @@ def run(pid, tier, seed, replay=None):
             for i in range(3 if tier == "quick" else 12):
                 plan.append({"nw": nw, "na": na, "firstred": fr, "policy": "free", **({"goto": 1} if i == 1 else {})})
         recs = _run_plan(exe, wd, plan, "plan")
+        stage["runs_of_real_code"] = round(_t.time() - t0, 1); t0 = _t.time()
         # ---- verdicts from direct observation
         results = collections.defaultdict(set)
         nrun = 0
@@ -233,6 +271,12 @@ def run(pid, tier, seed, replay=None):
                               "config": [nw, na, fr], "tlc": res.out[-1500:]})
             else:
                 ck.drift("recorded executions for NW=%d NA=%d FirstRed=%d are not behaviours of WalkDescents (hand-shake differs from the specification)" % (nw, na, fr))
+        # ---- whole monotonic fits with real threads under ThreadSanitizer: no data race anywhere in the fitter, and the
+        # fitted coefficients are bit-identical for every worker count (the C10 problem sample of MC_Glam, every monotonic dimension)
+        stage["trace_validation"] = round(_t.time() - t0, 1); t0 = _t.time()
+        nfits = _tsan_fits(ck, wd, tier, seed)
+        stage["tsan_fits"] = round(_t.time() - t0, 1)
+        ck.cov["monotonic_fits_under_tsan"] = nfits
         ck.cov["traces_validated_against_impl"] = nval
         ck.cov["evaluations"] = nrun
         ck.cov["distinct_nontrivial"] = len({json.dumps(p, sort_keys=True) for p in plan})
@@ -242,7 +286,7 @@ def run(pid, tier, seed, replay=None):
         for r in recs[:2]:
             ck.sample({"run": {k: r[k] for k in ("nw", "na", "firstred", "policy", "status")}, "events_head": r["events"][:14]})
         ck.assumptions += ["pthread primitives behave as modelled (mutex, condition variable with broadcast, create/join)",
-                           "data races on fields other than those the shim observes are left to the TSan run of the fit drivers (C10)"]
+                           "data races on fields the shim does not observe are caught by the ThreadSanitizer stage (real threads, whole fits), i.e. on the schedules that occurred, not on all"]
         return ck.finish(exhaustive=False)
     finally:
         if not os.environ.get("VERIF_KEEP"):
